@@ -310,9 +310,82 @@ def run(prog: Program, rep, tier="quick"):
     rep.count("pkt sequence loops", n_loops)
     if n_loops < 1:
         raise AnalysisError(f"expected >= 1 loop over read_pkt_line() results in protocol.py, found {n_loops}")
+    r19_6(prog, rep, m, F)
+    r19_7(prog, rep, m, F)
+    from sa.common import share
+    from rules import c02
+    share(rep, lambda: c02.run(prog, rep, tier), "R19.8", lambda o: o.rule == "R02.7" and o.func.startswith("PackStreamReader."),
+          "reassembly of the pack stream from arbitrary read chunks (shared with R02.7): exact reads use read_all with the pre-drain buffer length")
     rep.floor("R19.1", 1)
     rep.floor("R19.2", 8)
     rep.floor("R19.3", 4)
+
+
+def r19_6(prog, rep, m, F):
+    """Capability lists: the writer separates capabilities with ONE byte (space); the readers split on exactly that byte.
+    An argument-less split()/strip-and-split treats TAB, CR, VT, FF as separators too, so a capability value that contains
+    one of them (agent=...) comes back as several capabilities - and can smuggle one in."""
+    rep.rule("R19.6", "TABLE-AGREE: capability separator of the writers (b' ') == split argument of the readers; no argument-less split() in protocol.py")
+    probe = ast.parse("def f(x):\n    return x.split()\n")
+    if len([c for c in ast.walk(probe) if isinstance(c, ast.Call) and isinstance(c.func, ast.Attribute) and c.func.attr in ("split", "rsplit") and not c.args and not c.keywords]) != 1:
+        raise AnalysisError("R19.6 detector self-check failed")
+    argless = [c for c in ast.walk(m.tree) if isinstance(c, ast.Call) and isinstance(c.func, ast.Attribute) and c.func.attr in ("split", "rsplit")
+               and not c.args and not c.keywords]
+    fq = m.enclosing_func(argless[0]).qual if argless and m.enclosing_func(argless[0]) else "<module>"
+    rep.ob("R19.6", PROTO, fq, "no argument-less split() on wire data", not argless,
+           f"`{norm(argless[0], 60)}` splits on every ASCII whitespace byte, the peer separated with a single space" if argless else "",
+           argless[0].lineno if argless else 0)
+    n = 0
+    for name in ("extract_capabilities", "extract_want_line_capabilities"):
+        f = m.funcs.get(name)
+        if f is None:
+            raise AnalysisError(f"{name} not found")
+        seps = [F.try_fold(c.args[0]) for c in ast.walk(f.node) if isinstance(c, ast.Call) and isinstance(c.func, ast.Attribute) and c.func.attr == "split" and c.args]
+        n += 1
+        rep.ob("R19.6", PROTO, name, "the capability list is split on a single space", b" " in seps and all(isinstance(s_, bytes) and len(s_) == 1 for s_ in seps),
+               f"separators used: {seps}", f.node.lineno)
+    w = m.funcs.get("format_capability_line")
+    if w is None:
+        raise AnalysisError("format_capability_line not found")
+    wsep = [x.value for x in ast.walk(w.node) if isinstance(x, ast.Constant) and isinstance(x.value, bytes)]
+    rep.ob("R19.6", PROTO, w.qual, "the writer separates capabilities with a single space", wsep == [b"", b" "] or sorted(wsep) == [b"", b" "] or wsep == [b" "],
+           f"constants: {wsep}", w.node.lineno)
+
+
+def r19_7(prog, rep, m, F):
+    """End of stream vs truncation: a read of the 4-byte length prefix that returns NOTHING is a hang-up (clean EOF for
+    Protocol.eof()); a SHORT read (1-3 bytes) is a malformed frame and must not be reported as a hang-up."""
+    rep.rule("R19.7", "only an EMPTY read of the length prefix is a hang-up; a short prefix is a protocol error")
+    f = prog.func(PROTO, "Protocol.read_pkt_line")
+    g = cfg_of(prog, f)
+    hang = [i for i, n in g.nodes.items() if n.kind == "stmt" and isinstance(n.ast, ast.Raise) and "HangupException" in norm(n.ast)]
+    if not hang:
+        raise AnalysisError("read_pkt_line: raise HangupException not found")
+    # the guarding test: truthiness of the prefix (accepted), len(prefix) == 0 (accepted), any other length comparison (rejected)
+    from sa.common import var_cmp
+    verdicts = []
+    for h in hang:
+        tests = [a for a, l in g.pred[h] if g.nodes[a].kind == "test"]
+        for t in tests:
+            e = g.nodes[t].ast
+            if isinstance(e, ast.Name):
+                verdicts.append((True, e))
+                continue
+            v = var_cmp(e, F)
+            if v is not None and "len(" in norm(v[0]):
+                verdicts.append(((v[1], v[2]) in (("==", 0), ("<", 1), ("<=", 0)), e))
+            else:
+                verdicts.append((None, e))
+    known = [v for v in verdicts if v[0] is not None]
+    if not known:
+        raise AnalysisError("read_pkt_line: the test guarding the hang-up was not understood")
+    bad = [e for ok_, e in known if not ok_]
+    rep.ob("R19.7", PROTO, f.qual, "HangupException only for an empty read of the length prefix", not bad,
+           f"`{norm(bad[0])}` also covers a prefix of 1-3 bytes: a truncated stream is reported as a clean end of stream (Protocol.eof() "
+           f"returns True), neither a frame nor a protocol error" if bad else "", bad[0].lineno if bad else f.node.lineno)
+    ln = prog.func(PROTO, "_parse_pkt_line_length")
+    rep.ob("R19.7", PROTO, ln.qual, "a prefix that is not exactly 4 hex digits is a protocol error", "len(" in norm(ln.node, 10000) and "4" in norm(ln.node, 10000)
+           and any(isinstance(x, ast.Raise) for x in ast.walk(ln.node)), "", ln.node.lineno)
 
 
 def _ancestors(m, x):
